@@ -977,6 +977,12 @@ func (m *Machine) fmtErrorf(fr *Frame, format Value, args Slice) Value {
 func (m *Machine) timeNow(fr *Frame) Value {
 	tt := m.namedType("time", "Time")
 	st := m.zero(tt).(Struct)
+	if m.P != nil && m.P.ghost["clock-frozen"] != nil && m.P.clockLast != nil {
+		// frozen clock: every reading on this path is the same instant
+		st[fieldIndex(tt, "wall")] = Const(64, 0)
+		st[fieldIndex(tt, "ext")] = m.P.clockLast
+		return st
+	}
 	sec := m.NewInput("clock!now", 64, "clock")
 	// seconds since year 1: 2001-01-01 = 63113904000 ; 2100-01-01 = 66238041600 (approx bounds)
 	if m.P.concrete == nil {
